@@ -6,6 +6,7 @@ import (
 	"os"
 
 	"verif/internal/c01"
+	"verif/internal/c04"
 	"verif/internal/c15"
 	"verif/internal/c16"
 	"verif/internal/c17"
@@ -14,6 +15,7 @@ import (
 
 var checks = map[string]func(tier, replay string){
 	"C01": c01.Main,
+	"C04": c04.Main,
 	"C15": c15.Main,
 	"C16": c16.Main,
 	"C17": c17.Main,
